@@ -85,6 +85,7 @@ static Obs *W;
 static int tok_init(void *p, const void *src) { return W ? W->trk.init(p, src, 16) : -1; }
 static void tok_fini(void *p) { if (W) W->trk.fini(p, 16); }
 static const type_traits kTok(16, tok_fini, tok_init);
+static const type_traits kTok2(16, tok_fini, tok_init);  // a second, distinct content type with the same behaviour
 
 struct BufObj {
   CBuf *b;
@@ -153,7 +154,7 @@ static void run_buffer(Ctx &c) {
         if (cbuf(h[i]) || objs.size() >= 8) break;
         size_t n = c.range(0, 9);
         buffer *b = _mpt_buffer_alloc(n * 16, 0);
-        b->_content_traits = &kTok;
+        b->_content_traits = (n & 1) ? &kTok2 : &kTok;  // parity of the element count picks the content type (no extra draw)
         for (size_t k = 0; k < n; k++) obs.trk.make((uint8_t *)(b + 1) + 16 * k, (uint32_t)objs.size() + 1, 16);
         b->_used = n * 16;
         cbuf(h[i]) = (CBuf *)b;
@@ -167,6 +168,17 @@ static void run_buffer(Ctx &c) {
         if (i == j) break;
         if (!cbuf(h[j])) break;  // a source handle without buffer is C04's finding (NULL dereference)
         c.logf("mpt_array_clone(h%d, h%d)", i, j);
+        if (cbuf(h[i]) && cbuf(h[i]) != cbuf(h[j]) && cbuf(h[i])->traits != cbuf(h[j])->traits) {
+          // assignment between arrays of different content types is documented as refused (BadType):
+          // nothing may change, in particular no reference may be taken on the source
+          CBuf *was = cbuf(h[i]);
+          int r = mpt_array_clone(h[i], h[j]);
+          VP_CHECK(c, r < 0 && cbuf(h[i]) == was, "clone-result", "mpt_array_clone between different content types returned %d", r);
+          c.label("buffer:clone-refused-type");
+          nontrivial = true;
+          check("refused clone (content type mismatch)");
+          break;
+        }
         int r = mpt_array_clone(h[i], h[j]);
         VP_CHECK(c, r >= 0 && cbuf(h[i]) == cbuf(h[j]), "clone-result", "mpt_array_clone returned %d", r);
         if (r == 3) nontrivial = true;
